@@ -77,6 +77,10 @@ func c15Gen(t *rapid.T, tier Tier) interface{} {
 	case 0:
 		c.Kind = "process"
 		c.Docs = []gen.Doc{c15Doc(t)}
+	case 9:
+		// one rendered document, drawn several times (two targets, a preview then the final output)
+		c.Kind = "redraw"
+		c.Docs = []gen.Doc{c15Doc(t)}
 	case 1, 2, 3, 4:
 		c.Kind = "repeat"
 		n := rapid.IntRange(1, 3).Draw(t, "ndocs")
@@ -180,6 +184,23 @@ func c15Check(ci interface{}) Verdict {
 		}
 	}
 	switch c.Kind {
+	case "redraw":
+		d := c.Docs[0]
+		r, err := wr.RenderWith(d.HTML, wr.Opts{Engine: "pango", Hints: d.Hints, UserCSS: d.UserCSS, Zoom: 1}, wr.FreshFC("pango"))
+		if err != nil {
+			return Verdict{Excluded: "rejected", Labels: labels}
+		}
+		first := r.Rec.Trace()
+		for k := 2; k <= 3; k++ {
+			rec := wr.NewRecorder()
+			r.Doc.Write(rec, 1, nil)
+			if tr := rec.Trace(); tr != first {
+				return Viol("redraw:"+c15Class(first, tr), "drawing the same rendered document for the %d. time gives another call sequence: %s\n%s", k, firstDiff(first, tr), d.HTML)
+			}
+		}
+		if first != refs[0] {
+			return Viol("repeat:"+c15Class(refs[0], first), "document rendered again gives another call sequence: %s\n%s", firstDiff(refs[0], first), d.HTML)
+		}
 	case "repeat":
 		for step, i := range c.Order {
 			tr, ok := c15Trace(c.Docs[i])
@@ -354,9 +375,9 @@ func init() {
 		QuickN:           320,
 		ThoroughN:        4000,
 		Rule: "Documents of the C01 generator (pango engine) enriched with content touching every process-wide table or cache (hyphenation dictionaries for hu/en/fr with hyphens:auto, predefined and author counter styles, three fonts, SVG images, several ids and internal links per page, floats / absolutely positioned boxes). Histories: repeat (50%) - 1-3 documents rendered 5-9 times in a drawn interleaved order in one process, each with a fresh font configuration; process (10%) - the same document rendered twice in new processes (other map seeds, no earlier render); " +
-			"concurrent (40%) - 2-6 documents rendered at once, one goroutine and one font configuration each, with drawn start offsets, against the same documents rendered one after the other. Oracle: the canonical serialisation of the full backend trace (every call, every argument, float32 bit patterns) must be identical; the worker is built with -race and GORACE=halt_on_error, so a data race on an executed access kills the worker and is reported with the racing functions as signature. " +
+			"redraw (10%) - one rendered Document written three times to new backends; concurrent (30%) - 2-6 documents rendered at once, one goroutine and one font configuration each, with drawn start offsets, against the same documents rendered one after the other. Oracle: the canonical serialisation of the full backend trace (every call, every argument, float32 bit patterns) must be identical; the worker is built with -race and GORACE=halt_on_error, so a data race on an executed access kills the worker and is reported with the racing functions as signature. " +
 			"Non-trivial: some trace has >= 50 calls.",
-		ImportantLabels: []string{"kind:repeat", "kind:concurrent", "kind:process", "hyphenation", "counter-style", "internal-links"},
+		ImportantLabels: []string{"kind:repeat", "kind:concurrent", "kind:process", "kind:redraw", "hyphenation", "counter-style", "internal-links"},
 		Assumptions:     []string{"goroutine interleavings are sampled (start jitter, 16 cores, race detector happens-before analysis on executed accesses), not enumerated", "documents that crash belong to C01 and are excluded"},
 	})
 }
